@@ -54,3 +54,34 @@ Theorem c04_work_bounded : forall s0 P ls, check_init s0 = true ->
   Z.of_nat (length (gfinished (ginit s0 P) ls)) <= npanels s0.
 Proof. exact work_bounded. Qed.
 Print Assumptions c04_work_bounded.
+
+From SLU Require Import SchedFair.
+
+(* FAIR TERMINATION: there is no infinite weakly fair run of the protocol.  irun: an infinite sequence of enabled steps from the
+   initial state; wfair: a thread whose (unique) step stays enabled forever eventually moves (what an OS scheduler provides).
+   So under every fair schedule all threads leave the loop after finitely many steps: no deadlock, no lost wake-up, no
+   livelock of the polling loop. *)
+Theorem c04_fair_termination : forall s0 P G sigma,
+  check_init s0 = true -> ~ (irun s0 P G sigma /\ wfair G sigma).
+Proof. exact fair_termination. Qed.
+Print Assumptions c04_fair_termination.
+
+(* the fairness hypothesis cannot be dropped: an unfair infinite run exists (two workers never finish, the third polls forever) *)
+Theorem c04_unfair_run_exists : check_init uf_init = true /\ irun uf_init 3 uf_G uf_sigma /\ ~ wfair uf_G uf_sigma.
+Proof. exact unfair_run_exists. Qed.
+Print Assumptions c04_unfair_run_exists.
+
+(* from every reachable state the protocol can terminate, within 2*Phi steps; the potential Phi never increases *)
+Theorem c04_can_always_terminate : forall s0 P g, reachable s0 P g ->
+  exists ls g', grun g ls = Some g' /\ all_exited g'.
+Proof. exact can_always_terminate. Qed.
+Print Assumptions c04_can_always_terminate.
+
+(* a state in which no step is enabled is the final one: every thread has left the loop, no task remains, and every panel
+   has been handed out exactly once *)
+Theorem c04_maximal_run_complete : forall s0 P ls g,
+  check_init s0 = true -> (0 < P)%nat -> grun (ginit s0 P) ls = Some g -> (forall l, gstep g l = None) ->
+  all_exited g /\ tasks (gs g) <= 0 /\ NoDup (gtaken (ginit s0 P) ls) /\
+  forall p, lead s0 p = true <-> In p (gtaken (ginit s0 P) ls).
+Proof. exact maximal_run_complete. Qed.
+Print Assumptions c04_maximal_run_complete.
